@@ -191,7 +191,9 @@ def build(ctx, p):
     elif kind == 0:
         vs, triples = G.rand_graph(rng, rm, bases=R_AMR, concepts=CONCEPTS + [None, 7])
         rng.shuffle(triples)
-        g = Graph(triples, top=rng.choice(vs))
+        # (a third of them without an explicit top: the top is then the source of whatever triple comes
+        #  first - also when that triple is one a transformation replaces)
+        g = Graph(triples, top=rng.choice(vs) if rng.random() < 0.67 else None)
         cls = 'hand-built'
     else:
         node = T.rand_tree(rng, rm, roles=R_AMR, concepts=CONCEPTS, p_aln=0.25)
